@@ -18,7 +18,7 @@ ID = 'C18'
 LEVEL = 'exploration'
 RUN_TIMEOUT = 60.0
 CHUNK = 100
-TIERS = {'quick': dict(runs=40000, budget_s=70), 'thorough': dict(runs=1500000, budget_s=1500)}
+TIERS = {'quick': dict(runs=40000, budget_s=240), 'thorough': dict(runs=1500000, budget_s=1500)}
 RULE = ('seeded histories of 3-24 operations over {set_default_config(subset), get_default_config, '
         'call(entry point, explicit subset of the six settings, end string), the same call with a stream '
         'that raises at its k-th write}; entry points: pformat, pprint(stream=), pprint() with sys.stdout '
